@@ -28,6 +28,7 @@ static void attribute(const layout_t *L, const smat_t *M, const verdict_t *V0, l
         layout_t P = B; attr_apply(&P, L, at); verdict_t Vp;
         case_str(&P, M, G->probe_cs, sizeof G->probe_cs); G->probing = 1;
         if (vf_sh) snprintf((char *)vf_sh->note, sizeof vf_sh->note, "%s", G->probe_cs);
+        cpu_guard(CASE_CPU_S);
         exec_case(&P, M, &Vp);
         G->probing = 0; G->probes++;
         if (Vp.status == V0->status && !strcmp(Vp.clause, V0->clause) && (V0->status != ST_DEATH || !strcmp(Vp.cd, V0->cd))) resp |= 1u << at;
@@ -63,7 +64,7 @@ static void run_case(long idx) {
     if (L.maxdim && (M->m > L.maxdim || M->n > L.maxdim)) { G->restricted++; return; }
     case_str(&L, M, cs, sizeof cs);
     if (vf_sh) snprintf((char *)vf_sh->note, sizeof vf_sh->note, "%s", cs);
-    cpu_guard(5);
+    cpu_guard(CASE_CPU_S);
     exec_case(&L, M, &V);
     account(&L, M, &V, cs, idx);
 }
@@ -95,7 +96,7 @@ static void run_range(long lo, long hi, void (*fn)(long)) {
         if (pid == 0) {
             signal(SIGVTALRM, vt_alarm); vf_install_fault_handlers();
             for (long i = next; i < hi; i++) { vf_sh->cur = i; fn(i); }
-            vf_sh->done = 1; fflush(NULL); _exit(0);
+            vf_sh->done = 1; fflush(vf_out); _exit(0);      /* not fflush(NULL): it would visit abandoned streams */
         }
         int st = 0, code; waitpid(pid, &st, 0); vf_last_child = pid;
         if (WIFEXITED(st) && WEXITSTATUS(st) == 0 && vf_sh->done) break;
@@ -133,6 +134,7 @@ int main(int argc, char **argv) {
     VS = mmap(NULL, sizeof *VS, PROT_READ | PROT_WRITE, MAP_SHARED | MAP_ANONYMOUS, -1, 0);
     vf_sh = mmap(NULL, sizeof *vf_sh, PROT_READ | PROT_WRITE, MAP_SHARED | MAP_ANONYMOUS, -1, 0);
     G->samples_left = 3; G->noprobe_idx = -1;
+    if (getenv("VF_HANG_CPU_MS")) HANG_CPU_S = atof(getenv("VF_HANG_CPU_MS")) * 1e-3;
     PROP = arg_str(argc, argv, "--prop", "C20");
     DUMP = arg_int(argc, argv, "--dump", 0);
     build_titles();
